@@ -46,7 +46,25 @@ RULE = (
     "1e9, ttv cells draw unit and all-ones vectors, masks select everything / nothing; (degenerate requests) reads and "
     "writes with empty index arrays, empty subscript arrays, empty or stepped or reversed slices (labels key-*-empty); "
     "(large) C05/large/<class>: an operation of the class on an operand above internal block sizes (1e4..6e4 stored "
-    "nonzeros, 1e5..1e6 cells, rank 10..20), stored as a compact description and expanded from its seed."
+    "nonzeros, 1e5..1e6 cells, rank 10..20), stored as a compact description and expanded from its seed.  "
+    "Round 4: (presentations, class 11) every constructor cell hands over its arrays C- / F-ordered, as strided or reversed "
+    "views, read-only, in float32 / int32 / int64 and index arrays in int32 / uint8 / uint16 / uint64 (labels "
+    "<operand>-presented-*, factor-presented-*), factors and parts in a list or a tuple; every Tucker tensor anywhere in a "
+    "case has its factor matrices presented to the constructor as scipy.sparse COO matrices (they stay COO inside the "
+    "object: copy, deepcopy, +, -, scalar multiples, permute, ttm, sumtensor parts ... are judged on them), strided / "
+    "read-only / float32 arrays (labels factors-ttensor-*), every Kruskal tensor likewise (no COO, no float32: ktensor "
+    "wants float64 ndarrays); dense / sparse tensors are also stored in float32; auxiliary vectors / matrices / item-assignment "
+    "values are also read-only, float32, int32, reversed views or (matrices) COO; lists of multiplicands are also tuples; a "
+    "ValueError 'read-only' raised while an operand is presented read-only is the clause writes-into-read-only-operand.  "
+    "(rejected requests, class 12) whenever a call raises - in every cell - every operand, the receiver of a documented "
+    "in-place operation included, must be bit for bit what it was (clause operand-changed-by-rejected-call:<operand>); "
+    "C05/<class>/rejected and C05/ctor/rejected make ill-formed requests out of a table (mode out of range, wrong-length "
+    "lists, wrong value counts, shape mismatch, no permutation, invalid option; item assignment, ktensor.update / arrange / "
+    "normalize / redistribute / fixsigns, constructors, algorithm entry points with an ill-formed initial guess / dimorder); "
+    "there a case is non-trivial when the request was rejected and an operand array existed.  (reporting, class 13) "
+    "printitn / printinneritn / verbosity / optimizer printitn over their ranges (silent, every iteration, every k-th, "
+    "beyond maxiters; hosvd's thresholds 0, 2, 5), and in one case out of six the root logger is at DEBUG with a "
+    "NullHandler while the operation runs (label root-logger-DEBUG): all clauses apply unchanged."
 )
 ASSUMPTIONS = [
     "wall-clock measurements inside a result (any path mentioning 'time') are not values: they are ignored when two "
@@ -72,6 +90,13 @@ ASSUMPTIONS = [
     "non-negativity) and run long on badly scaled data",
     "(round 3) an empty request returns arrays without memory, so the aliasing clauses have nothing to judge there; "
     "what is judged is that the operands (key arrays included) stay bit-identical and that a no-op write changes nothing",
+    "(round 4) a request that is accepted in one presentation and rejected in another is not a C05 matter (C02/C19); the "
+    "rejected one is labelled raised:<Type> and only has to leave its operands alone",
+    "(round 4) ttensor(copy=False) with scipy COO factors fails in ttensor._matches_order (AttributeError): explicit no-copy "
+    "constructions are outside the claim, so the no-copy state densifies COO factors",
+    "(round 4) read-only operands cannot be overwritten by the harness, so for them the behavioural clauses (write to "
+    "operand -> result unchanged) are vacuous and the static np.shares_memory clause carries the judgement",
+    "(round 4) LBFGSB's iprint is not varied: L-BFGS-B prints from compiled code straight to the process stdout",
 ]
 PREDICATES = R.PREDICATES
 
@@ -81,3 +106,4 @@ from . import _c05_kruskal  # noqa: E402,F401
 from . import _c05_mat  # noqa: E402,F401
 from . import _c05_alg  # noqa: E402,F401
 from . import _c05_large  # noqa: E402,F401
+from . import _c05_rejected  # noqa: E402,F401
